@@ -36,6 +36,7 @@ TEMPLATES = {
     "le_create": ("    for x in new:\n        res.append(x <= snapshot())\n", ["n0", "n1"], "[n0, n1]"),
     "in_loop": ("    for x in new:\n        res.append(x in snapshot([c0, h1]))\n", ["c0", "h1", "n0", "n1"], "[n0, n1]"),
     "in_create": ("    for x in new:\n        res.append(x in snapshot())\n", ["n0", "n1"], "[n0, n1]"),
+    "in_hasrepr_strict_eq": ("    res.append(Strict(1) in snapshot([c0]))\n    for x in new:\n        res.append(x in snapshot())\n    res.append(snapshot() == Strict(2))\n", ["c0", "n0"], "[n0]"),
     "getitem": ("    s = snapshot({1: c0, 2: c1})\n    res.append(s[1] == new[0])\n    res.append(s[3] == new[1])\n", ["c0", "c1", "n0", "n1"], "[n0, n1]"),
     "getitem_nested": ("    s = snapshot({1: {2: h0}})\n    res.append(s[1][2] == new[0])\n    res.append(s[1][3] == new[1])\n", ["h0", "n0", "n1"], "[n0, n1]"),
     "tuple_mutated_after": ("    v = (new[0], [new[1]])\n    res.append(v == snapshot())\n    v[1].append(new[0])\n", ["n0", "n1"], "[n0, n1]"),
@@ -47,6 +48,9 @@ TEMPLATES = {
 def twice_case(tname, approved, vals):
     body, names, new_src = TEMPLATES[tname]
     ns = dict(SUPPORT_NS)
+    from inline_snapshot import HasRepr
+
+    ns["HasRepr"] = HasRepr  # D-core does not insert the import (that is the plugin's part, C03)
     ns.update(vals)
     world.reset(ns)
     new = eval(new_src, dict(W.ns))
